@@ -27,6 +27,8 @@ def family():
         yield label, prog, dict(deep=True)
     for label, prog, meta in F.fam_markers_fields():
         yield label, prog, dict(deep=True, alphabet=meta["alphabet"])
+    for label, prog, meta in F.fam_markers_exit_writes():
+        yield label, prog, dict(deep=True, alphabet=meta["alphabet"], watch=meta["watch"])
     if core.TIER != "quick":
         for label, prog, meta in F.fam_markers_deep():
             yield label, prog, dict(deep=True)
